@@ -4,7 +4,9 @@ from props import common as cm
 ID = 'C02'
 MODS = cm.MODS_CORE
 FOCUS = 'all'
-FUNCS = ['yalafi.utils.get_txt_pos', 'yalafi.utils.latex_error'] + \
+FUNCS = ['yalafi.utils.get_txt_pos', 'yalafi.utils.latex_error',
+         # text behind a replaced phrase keeps its exact offsets
+         'yalafi.utils.substitute', 'yalafi.utils.replace_phrases'] + \
     cm.SCANNER + cm.BUFFER + cm.PARSER
 
 
